@@ -395,8 +395,11 @@ class Check:
             "coverage": self.cov, "assumptions": self.assumptions, "wall_s": round(time.time() - self.t0, 2),
             "violations": self.violations, "known_findings_reproduced": self.known, "notes": self.notes,
         }
-        os.makedirs(os.path.join(VERIF, "evidence"), exist_ok=True)
-        with open(os.path.join(VERIF, "evidence", self.prop + ".json"), "w") as fh:
+        # VERIF_EVIDENCE_DIR: used only when a candidate change is tried out in a scratch tree, so that the committed
+        # evidence (written by runs against /repo itself) is not overwritten
+        evdir = os.environ.get("VERIF_EVIDENCE_DIR") or os.path.join(VERIF, "evidence")
+        os.makedirs(evdir, exist_ok=True)
+        with open(os.path.join(evdir, self.prop + ".json"), "w") as fh:
             json.dump(ev, fh, indent=1, default=str)
         log("%s %s: %s (evaluations=%d distinct=%d obligations=%d/%d known=%d) %.1fs" % (
             self.prop, self.tier, "FAIL" if self.violations else "ok", self.cov["evaluations"],
